@@ -1,3 +1,4 @@
+import CacheVerif.Proofs.Wrappers
 import CacheVerif.Proofs.TableRefine
 /-!
 # C11 — contents never depend on capacity, resize history, hash seed or bucket layout
@@ -102,5 +103,24 @@ example : ((run mapVariant exEnv (new mapVariant exEnv 0 false) exOps).1.tbl.cha
 set_option maxRecDepth 4000 in
 example : ((run mapVariant exEnv (new mapVariant exEnv 0 false) exOps).2.map (·.out)) =
     [.unit, .unit, .unit, .unit, .val 13 true, .val 0 false, .size 4] := by decide
+
+/-- **the sequential table model makes the calls of `doCompute` the methods of both files make** (function argument,
+`loadIfExists`, `computeOnly`, result returned or dropped: printed from `map.go` / `mapof.go` on every run by
+`go2deep -wrappers`), so `C11_step` / `C11_run` are about those methods -/
+theorem C11_methods_are_doCompute_calls {K V : Type} [DecidableEq K] [Inhabited V] (var : Model.Table.Variant)
+    (env : Model.Table.Env K) (m : Model.Table.St K V) (k : K) (v : V) (g : Option V → V × Bool) :
+    Model.Table.step var env m (.store k v) = Proofs.Wrappers.viaWrapper var env m k g Gen.Deep.Map_Store v 0 ∧
+    Model.Table.step var env m (.store k v) = Proofs.Wrappers.viaWrapper var env m k g Gen.Deep.MapOf_Store v 0 ∧
+    Model.Table.step var env m (.loadOrStore k v) = Proofs.Wrappers.viaWrapper var env m k g Gen.Deep.Map_LoadOrStore v 0 ∧
+    Model.Table.step var env m (.loadOrStore k v) = Proofs.Wrappers.viaWrapper var env m k g Gen.Deep.MapOf_LoadOrStore v 0 ∧
+    Model.Table.step var env m (.loadAndStore k v) = Proofs.Wrappers.viaWrapper var env m k g Gen.Deep.Map_LoadAndStore v 0 ∧
+    Model.Table.step var env m (.loadAndStore k v) = Proofs.Wrappers.viaWrapper var env m k g Gen.Deep.MapOf_LoadAndStore v 0 ∧
+    Model.Table.step var env m (.compute k g) = Proofs.Wrappers.viaWrapper var env m k g Gen.Deep.Map_Compute v 1 ∧
+    Model.Table.step var env m (.compute k g) = Proofs.Wrappers.viaWrapper var env m k g Gen.Deep.MapOf_Compute v 1 ∧
+    Model.Table.step var env m (.loadAndDelete k) = Proofs.Wrappers.viaWrapper var env m k g Gen.Deep.Map_LoadAndDelete v 0 ∧
+    Model.Table.step var env m (.loadAndDelete k) = Proofs.Wrappers.viaWrapper var env m k g Gen.Deep.MapOf_LoadAndDelete v 0 ∧
+    Model.Table.step var env m (.delete k) = Proofs.Wrappers.viaWrapper var env m k g Gen.Deep.Map_Delete v 0 ∧
+    Model.Table.step var env m (.delete k) = Proofs.Wrappers.viaWrapper var env m k g Gen.Deep.MapOf_Delete v 0 :=
+  ⟨rfl, rfl, rfl, rfl, rfl, rfl, rfl, rfl, rfl, rfl, rfl, rfl⟩
 
 end Props.C11
